@@ -55,7 +55,7 @@ def run(tier, seed):
     # (a) cipher law on wow_srp
     law = []
     for exp in ("vanilla", "tbc", "wrath"):
-        for _ in range(20 if tier == "quick" else 200):
+        for _ in range(20 if tier == "quick" else 2000):
             law.append(f"cipherlaw {exp} {rng.bytes(40).hex()} {rng.bytes(1 + rng.below(60)).hex()}")
     lo = run_parallel(har, law, jobs=8)
     for rq, r in zip(law, lo):
@@ -64,7 +64,7 @@ def run(tier, seed):
     # (b) sequences
     reqs, meta = [], []
     pool = [0, 1, 5, 100, 0x7FF9, 0x7FFA, 0x7FFB, 0x7FFC, 0x7FFD, 0x7FFE, 0x7FFF, 0x8000, 0x8001, 40000, 65529]
-    nseq = 8 if tier == "quick" else 80
+    nseq = 8 if tier == "quick" else 600
     for exp in ("vanilla", "tbc", "wrath"):
         for d in ("server", "client"):
             for api in ("enum", "expect", "expectother"):
@@ -108,7 +108,7 @@ def run(tier, seed):
         toks = c.get("ztokens") or c.get("zmsg_tokens") or (c.get("tokens") if "tokens" in c and "prim" in c["tokens"] else None)
         if toks is None:
             continue
-        for s_ in range(4 if tier == "quick" else 24):
+        for s_ in range(4 if tier == "quick" else 96):
             try:
                 body = pyenc.encode(toks, rng, (1, 2, 3, 6)[s_ % 4], None)
             except (pyenc.Unsupported, OverflowError, ValueError):
@@ -121,7 +121,7 @@ def run(tier, seed):
     freqs, fmeta = [], []
     for (exp, d), pool_ in sorted(pools.items()):
         zs = [x for x in pool_ if x[2]]
-        for k in range(len(zs) * 2 + (30 if tier == "quick" else 300)):
+        for k in range(len(zs) * 2 + (30 if tier == "quick" else 2000)):
             n = 1 + rng.below(10)
             fs = [rng.choice(pool_) for _ in range(n)]
             if zs and k < len(zs) * 2:
